@@ -81,7 +81,7 @@ PROPS = {
     'C17': P('byte-offset slicing of a candidate name only after the prefix test (FS5); every path handed to a creating / opening / removing / scanning primitive is built by the one name builder from a tracked number, or is the directory itself for read-only open/scan (FS1); the name template and the parser agree (FS2); the scan admits regular files with parsed names only (FS3); the parser gates length, prefix and ASCII digits (FS4); only popped tracked files are unlinked (GC5); fresh numbers are minted only by the tracker (GC8).',
              'std\'s DirEntry::file_type / symlink semantics (trusted).',
              'who-may-call + provenance over all path-taking std::fs call sites; AST format-template vs parser agreement', 'DESIGN §5.6 FS'),
-    'C18': P('the GC triggered by one queue records, durably and pinned, the positions of exactly the idle empty queues and happens after the call's own update (GC1, GC2w, GC3, GC10); a torn or damaged entry of one queue is never spliced into another queue's entry (REC2, REC4, FR8); every memory operation and every entry in a call is keyed by the call\'s own queue argument (ISO1), in replay by the entry\'s own queue (ISO2); mutators access the map by key only, whole-map primitives are confined (ISO3); GC touches only empty queues (ISO4); file lifetime is a shared count (GC8); every entry kind carries its queue (CD5).',
+    'C18': P('the GC triggered by one queue records, durably and pinned, the positions of exactly the idle empty queues and happens after the call\'s own update (GC1, GC2w, GC3, GC10); a torn or damaged entry of one queue is never spliced into another queue\'s entry (REC2, REC4, FR8); every memory operation and every entry in a call is keyed by the call\'s own queue argument (ISO1), in replay by the entry\'s own queue (ISO2); mutators access the map by key only, whole-map primitives are confined (ISO3); GC touches only empty queues (ISO4); file lifetime is a shared count (GC8); every entry kind carries its queue (CD5).',
              'equality of a queue\'s content in the projected history.',
              'provenance / keyed-access confinement', 'DESIGN §5.8 ISO'),
 }
